@@ -81,7 +81,7 @@ CHECKS['C17'] = dict(
 CHECKS['C20'] = dict(
     category='other', design_ref='DESIGN.md section 4 (R-PROFILE, R-CONFIG-DIFF, R-UNSAFE), section 5 C20',
     technique='inventory of profile-dependent check sites on MIR extracted with overflow checks and debug assertions ON + ' + ABSINT + ' deciding for each reached site whether its failure edge is feasible; MIR equality between feature configurations; who-may-call rule for unsafe',
-    text='CLAUSE decided: the operations of C01-C11, C14-C16 (arithmetic, comparison, rounding, integer conversion, unary, wide helpers and unsigned kernels incl. Knuth-D, gcd / ratio / hash, parsing, formatting). Every overflow assert, every call of an inherit-overflow-checks core function (<i128 as Add>::add, abs, pow, ...) and every debug_assert reached by the ~4 500 (quick) / ~24 000 (thorough) cells of those properties has an infeasible failure edge in every cell, hence the release build - which omits the check - computes the same result; a feasible edge would be reported as "panics in dev, wraps in release". Function bodies are identical MIR with and without feature packed; unsafe operations are confined to the audited parser helpers. NOT decided: the 58 sites in the float conversions (C12, C13) and in unused doc(hidden) helpers (listed as assumptions in the evidence).',
+    text='Decided for the operations of C01-C16 (arithmetic, comparison, rounding, integer and float conversions, unary, wide helpers and unsigned kernels incl. Knuth-D, gcd / ratio / hash, parsing, formatting). Every overflow assert, every call of an inherit-overflow-checks core function (<i128 as Add>::add, abs, pow, ...) and every debug_assert reached by the ~4 500 (quick) / ~24 000 (thorough) cells of those properties has an infeasible failure edge in every cell, hence the release build - which omits the check - computes the same result; a feasible edge would be reported as "panics in dev, wraps in release". Function bodies are identical MIR with and without feature packed; unsafe operations are confined to the audited parser helpers. NOT decided: 7 sites in doc(hidden) helpers that fpdec itself no longer calls (mul_pow_ten, adjust_coeffs, the u8/u16 log10 helpers) and the debug_assert on the documented precondition of new_raw (listed as assumptions in the evidence).',
     note='Trusted: rustc (absent UB the optimisation level does not change results); ' + TB + 'The 98 silent-wrap sites found by this check are repaired by a fix: commit.')
 
 CHECKS['C09'] = dict(
@@ -119,8 +119,13 @@ CHECKS['C12'] = dict(
     text='For f64 and f32, every scale 1..18, every bit length 1..127 of |coefficient| and both signs (thorough: all 2 x 18 x 127 x 2 cells; quick: boundary scales and bit lengths) - i.e. every Decimal with fractional digits - each path of <fN as From<Decimal>>::from decides the binade e of v = |coeff| / 10^p and returns the bit pattern sign | (q + ((e + bias - 1) << F)) with q = RoundHalfEven(v * 2^(F-e)): the nearest float, ties to even, including the carry into the exponent field; no panic edge (shift amounts, overflow checks). Values with 0 fractional digits and zero are converted by the primitive cast of the exact coefficient (its rounding is the language\'s: trusted).',
     note=TB + 'IEEE 754 binary32 / binary64 encoding as written in the oracle; Rust int-to-float `as` casts (nearest even, 0 -> +0.0).')
 
+CHECKS['C13'] = dict(
+    category='proof', design_ref='DESIGN.md section 12.13 (as built; section 7 listed C13 as not applicable before the cell decomposition by exponent field was tried)',
+    technique=ABSINT + ': a float is its bit pattern; one cell per float type x sign x exponent field (fraction field symbolic) makes the binary exponent and the divisor 2^-e concrete, the digit loop unrolls (at most 18 rounds), half-even step and normalisation fork; fact-based RoundSpec oracle',
+    text='For f64 and f32, every sign and every exponent field (thorough: all 2 x 2048 + 2 x 256 fields plus the zero / subnormal / infinity / NaN splits, i.e. every bit pattern; quick: 78 boundary cells) each path of TryFrom<fN> for Decimal returns what the statement prescribes: NaN -> NotANumber, infinities -> InfiniteValue, zeros and subnormals -> Ok(0); e >= 0: Ok(s*sig*2^e, 0) when it fits i128, else InternalOverflow; e < 0: Ok((c, n)) with |c| * 10^(18-n) = RoundHalfEven(sig * 10^18 / 2^-e) - the exact value whenever it has at most 18 fractional digits - the sign of the float, n <= 18 and no trailing fractional zero (c mod 10 != 0 established on the path); no path panics (the assert on the exponent field is unreachable).',
+    note=TB + 'IEEE 754 binary32 / binary64 field layout (float models to_bits / is_nan / is_infinite).')
+
 NOT_APPLICABLE = {
-    'C13': 'f64/f32 -> Decimal quantifies over all bit patterns through a data-dependent long-division loop with a non-linear invariant; not decidable by the static machinery; see DESIGN.md section 7.',
 }
 
 PENDING = 'check under construction in this session (design in DESIGN.md section 5); not claimed until its ./check command exists'
